@@ -281,6 +281,24 @@ def run(scn):
                 J.fire('token-' + what)
                 J.clause1(res, text, 'for file %s with token %r at %d %sd' % (f.name, tok[:20], pos, what))
                 J.sigs.add((f.name, 'token', what, res[0], type(res[1]).__name__ if res[0] not in ('ok', 'timeout') else res[0]))
+    elif k == 'dupstring':
+        # a quoted string that spans lines, given twice: the second copy is the offending token and it starts on the line
+        # where the first one ends
+        f = fl[scn['file']]
+        for (pos, end) in scn['spans']:
+            tok = f.text[pos:end]
+            text = f.text[:end] + ' ' + tok + f.text[end:]
+            res = attempt(d, text)
+            J.units += 1
+            J.fire('multi-line-string-duplicated')
+            J.clause1(res, text, 'for file %s with the string at %d given twice' % (f.name, pos))
+            want = nlines(f.text[:end])
+            if res[0] == 'ok':
+                J.V('C11.3-truncated', 'a string given twice at offset %d of %s was accepted' % (pos, f.name), what='accepted-garbage', inserted='string-twice')
+            elif res[0] == 'lexerr' and 'end of input' not in str(getattr(res[1], 'msg', res[1])).lower() and getattr(res[1], 'lineno', None) != want:
+                J.V('C11.2-line', 'the second copy of a %d-line string starts on line %d of %s; the error reports line %r' % (tok.count(f.eol) + 1, want, f.name, getattr(res[1], 'lineno', None)),
+                    what='wrong-line-multiline-token', delta=(getattr(res[1], 'lineno', 0) or 0) - want)
+            J.sigs.add((f.name, 'dupstring', res[0], type(res[1]).__name__ if res[0] != 'ok' else 'ok'))
     elif k in ('comment', 'indent'):
         f = fl[scn['file']]
         ref = intact(tier, scn['file'], d)
@@ -585,6 +603,10 @@ def sweep(tier):
         sspans = [(a, b) for (a, b) in token_spans(f) if f.text[a] == '"']
         for i in range(0, len(sspans), 12):
             out.append({'k': 'string', 'tier': tier, 'file': fi, 'spans': sspans[i:i + 12]})
+        mspans = [(m.start(), m.end()) for m in re.finditer(r'"[^"]*"', f.text) if f.eol in m.group(0) and f.text[:m.start()].count('"') % 2 == 0
+                  and '--' not in f.text[f.text.rfind(f.eol, 0, m.start()) + 1:m.start()]]
+        for i in range(0, len(mspans), 12):
+            out.append({'k': 'dupstring', 'tier': tier, 'file': fi, 'spans': mspans[i:i + 12]})
         spans = token_spans(f)
         for i in range(0, len(spans), 60):
             out.append({'k': 'token', 'tier': tier, 'file': fi, 'spans': spans[i:i + 60]})
